@@ -57,6 +57,10 @@ C = {
     'symbolic execution of rustc MIR of Rule::validate over symbolic example states (is_mapping, is_empty, matches, pairwise equality) with solve() as an arbitrary boolean per example; z3 against the specification of validate(); native replay through rules realising the model',
     'All example lists with up to 3 positives and 3 negatives and all 2^(2k) example states: no panic, Ok(true) iff every example is right, Err(Validation) naming exactly the failing examples.',
     'solve() abstracted to a boolean per example (C02 covers its meaning); format!/Error::with modelled to keep which examples are mentioned'),
+ 'C14': ('other', '3/C14',
+    'symbolic execution of rustc MIR of the Serialize impls of Rule / Detection (recording serializer model), of the hand-written Detection visitor and the derived Rule visitor (map-access model delivering symbolic entries in every order) and of Rule::optimise; z3 decides each specification over symbolic condition text, identifier names, entry order, presence and callee outcomes; serde_yaml channel contract validated by native round trips (concrete)',
+    'Partial: tau-engine\'s own part of the round trip. Serialising emits exactly the recorded raw condition / identifiers / examples; optimise never touches them; the visitors rebuild condition, identifiers and examples from any delivery order of exactly such entries and accept them whenever the original was accepted. serde_yaml\'s emitter / scanner are not encoded: their round trip is a stated contract, exercised natively on every template rule and on quoting-sensitive rules (to_string / to_value -> from_str / from_value, exported trees and examples compared).',
+    'recording serializer / map access never fail on their own; parse_identifier, tokenise, parse, is_solvable abstracted to deterministic functions with arbitrary outcome (C02/C04/C05/C12 cover them); identifier values opaque; texts <= 6/10 bytes, names <= 3/5 bytes, <= 2/3 identifiers'),
  'C15': ('other', '3/C15',
     'structural comparison of the two MIR dumps (default / ignore_case); symbolic execution of into_identifier of both builds on s and "i"+s with z3 equality of the results per compatible path pair; tree equality through the two native bridges',
     'into_identifier is the only function that differs; for all ASCII pattern strings within the byte bound the two builds produce the same identifier (kind, payload, flag); template trees identical.',
@@ -71,7 +75,6 @@ C = {
     MODELS),
 }
 NA = {
- 'C14': 'the property lives in serde_yaml / libyaml / serde-derive output (serialiser, emitter, scanner); none of it is tau-engine MIR and a contract model of a YAML emitter precise enough to decide quoting round-trips would be the property itself (DESIGN 3/C14)',
 }
 claimed = {k: v for k, v in C.items() if os.path.exists(os.path.join(V, 'checks', k + '.py'))}
 checks = []
